@@ -49,7 +49,7 @@ Definition cscheck (c : cscase) : bool :=
       let n := if c_cyclic c then (length kn - 1)%nat else length kn in
       let rows := map (fun o => match o with Some x => cs_row kn F (c_cyclic c) (c_mode c) (frq x) | None => Some None end) (c_xs c) in
       strictly_increasing kn && Nat.leb 2 (length kn) &&
-      (if c_cyclic c then true else natural_F_ok kn F) &&
+      (if c_cyclic c then cyclic_F_ok kn F else natural_F_ok kn F) &&
       all2 (fun mr ir => all2 (fun m v => nearq m (frq v)) mr ir) Fl (c_F c) &&
       (if c_raises c then existsb raises rows else negb (existsb raises rows) && all2 row_ok rows (c_rows c)) &&
       match c_means c with
